@@ -445,6 +445,21 @@ pub(crate) fn log_flush(raw: &[u8], stored: &[u8]) {
     })
 }
 
+/// Records a successfully decompressed block as if it had been flushed compressed.
+pub(crate) fn log_decompress(compressed: &[u8], raw: &[u8]) {
+    FLUSH_LOG.with(|log| {
+        if let Some(records) = log.borrow_mut().as_mut() {
+            let mut stored = vec![1u8];
+            stored.extend_from_slice(&(compressed.len() as u16).to_le_bytes());
+            stored.extend_from_slice(compressed);
+            records.push(FlushRecord {
+                raw: raw.to_vec(),
+                stored,
+            });
+        }
+    })
+}
+
 /// Starts (or restarts) recording flushed blocks on this thread.
 pub fn start_flush_log() {
     FLUSH_LOG.with(|log| *log.borrow_mut() = Some(Vec::new()))
